@@ -45,7 +45,7 @@ PREV_LE = {"list": "[]", "nlist": "[]", "tuplel": "()", "barr": "bytearray(b'')"
 
 
 def bounds(tier):
-    return {"shapes": len(SHAPES), "ops": list(OPS), "max_actions": _L(tier), "modes": ["create", "fix-from-previous"]}
+    return {"shapes": len(SHAPES), "ops": list(OPS), "max_actions": _L(tier), "modes": ["create", "fix-from-previous", "in: every tested state already a member, fix+trim"]}
 
 
 def _L(tier):
@@ -67,6 +67,15 @@ def _cases(tier):
                         if mode == "fix" and (tier == "quick" and n >= _L(tier)):
                             continue
                         cases.append({"sh": sh, "op": op, "seq": list(seq), "mode": mode})
+    # `in` snapshots that already hold every state that will be tested (plus one that will not): the record of a known member
+    # must be a copy as well, otherwise trim removes tested members after the object is modified
+    for sh in ("list", "nlist", "dictl", "dc", "tuplel", "job", "hdc"):
+        init, muts = SHAPES[sh]
+        alpha = ["C"] + list(range(len(muts)))
+        for n in range(2, _L(tier) + 2):
+            for seq in itertools.product(alpha, repeat=n):
+                if seq[0] == "C" and "C" in seq[1:] and any(a != "C" for a in seq):
+                    cases.append({"sh": sh, "op": "in", "seq": list(seq), "mode": "known"})
     for op in OPS:
         for kind in ("ident", "badcopy"):
             cases.append({"nocopy": kind, "op": op})
@@ -83,7 +92,9 @@ def _cases(tier):
 
 def build(tier, seed):
     cs = _cases(tier)
-    return [{"cases": cs[i : i + BATCH]} for i in range(0, len(cs), BATCH)]
+    a = [c for c in cs if c.get("mode") != "known"]
+    b = [c for c in cs if c.get("mode") == "known"]  # these sessions approve trim as well: batched apart
+    return [{"cases": a[i : i + BATCH]} for i in range(0, len(a), BATCH)] + [{"cases": b[i : i + BATCH]} for i in range(0, len(b), BATCH)]
 
 
 def _cmp(op):
@@ -128,6 +139,8 @@ def _site(i, c):
         return "def test_%d():\n    v = %s\n    s = snapshot()\n    %s\n" % (i, init, _cmp(c["op"]))
     init, muts = SHAPES[c["sh"]]
     arg = ""
+    if c["mode"] == "known":
+        arg = c.get("_known", "")
     if c["mode"] == "fix":
         arg = PREV_GE[c["sh"]] if c["op"] == ">=" else (PREV_LE[c["sh"]] if c["op"] == "<=" else PREV[c["op"]])
     lines = ["v = %s" % init, "s = snapshot(%s)" % arg]
@@ -232,11 +245,18 @@ def _judge(cases):
     import types
 
     n = len(cases)
+    if any(c.get("mode") == "known" for c in cases):
+        # first pass: alias-free run of the create version gives the states that will be tested
+        src0 = P.module([_site(i, dict(c, _known="")) for i, c in enumerate(cases)], ["DC", "NT"], header="").replace(
+            "from inline_snapshot import snapshot\n", "from inline_snapshot import snapshot\n" + NOCOPY, 1) + "\n\n" + HASHMUT
+        m0, _ = _model(src0, n)
+        cases = [dict(c, _known=("[" + ", ".join([repr(x) for x in m0[i][1]] + ["'never-tested'"]) + "]") if (c.get("mode") == "known" and m0[i][0] == "ok") else "")
+                 for i, c in enumerate(cases)]
     src = P.module([_site(i, c) for i, c in enumerate(cases)], ["DC", "NT"], header="") .replace(
         "from inline_snapshot import snapshot\n", "from inline_snapshot import snapshot\n" + NOCOPY, 1) + "\n\n" + HASHMUT
     ctx = {"src": src}
     model, _ = _model(src, n)
-    flags = ["create", "fix"]
+    flags = ["create", "fix", "trim"] if any(c.get("mode") == "known" for c in cases) else ["create", "fix"]
     r = run_inline({"test_something.py": src}, flags)
     if r["error"]:
         return [("internal-error", r["error"]["type"] + ": " + r["error"]["msg"][:300])] * n, ctx
@@ -301,6 +321,10 @@ def _judge(cases):
             out.append(("written-argument-not-evaluable", "%r: %s" % (calls[i]["arg_text"][:100], e)))
             continue
         exp = m[1]
+        if c["mode"] == "known" and not c.get("_known"):
+            ctx["dropped"].append(i)
+            out.append(None)
+            continue
         if c["mode"] == "fix" and c["op"] == "in":
             exp = [0] + [x for x in exp if x != 0]  # fix appends to the previous list; nothing is trimmed
         if repr(got) != repr(exp):
